@@ -244,10 +244,24 @@ def _run_blaze_case(c, case):
     im = np.array(case["im"], dtype=bool)
     # the same 0/1 matrix may be handed over as integers (calculate_incidence_matrix(..., data_type=int)); the case hash decides
     dt = (bool, int, np.uint8)[sum(sum(r) for r in case["im"]) % 3] if case.get("vary_dtype", True) else bool
+    # how the labels are handed over: both positionally, both by keyword, only one of the two (the other defaults to
+    # positions), none; decided by the case content so that a replay takes the same route
+    mode = case.get("labels") or ("both", "kw", "eids", "both", "qids", "none", "both")[(sum(sum(r) for r in case["im"]) + 3 * len(case["im"])) % 7]
+    eids, qids = case.get("eids"), case.get("qids")
     with c.running(case):
         try:
             with rt.quiet():
-                blazer.blaze(im.astype(dt), case.get("eids"), case.get("qids"))
+                if mode == "kw":
+                    blazer.blaze(im.astype(dt), qids=tuple(qids) if qids is not None else None, eids=tuple(eids) if eids is not None else None)
+                elif mode == "eids":
+                    blazer.blaze(im.astype(dt), eids=eids)
+                elif mode == "qids":
+                    blazer.blaze(im.astype(dt), qids=qids)
+                elif mode == "none":
+                    blazer.blaze(im.astype(dt))
+                else:
+                    blazer.blaze(im.astype(dt), eids, qids)
+            c.note(f"blaze-labels:{mode}")
         except Exception as exc:
             sq = im.shape[0] == im.shape[1]
             if sq and graph.has_perfect_matching(im):
@@ -467,32 +481,6 @@ def shard(c):
         counts[str(n)] = cnt
     c.extra.update({f"perfect_matching_count_n{n}": v for n, v in counts.items()})
 
-    # ---- 2. random larger matrices
-    n_rand = c.scale(400, 6000)
-    kinds = ["planted", "planted", "planted", "dense", "sparse", "triangular", "cycle", "chain"]
-    for i in range(n_rand):
-        if c.out_of_time():
-            break
-        kind = kinds[i % len(kinds)]
-        n = int(rng.integers(5, c.scale(16, 31)))
-        im = _random_matrix(rng, n, kind)
-        if not graph.has_perfect_matching(im):
-            c.note("generator:no-perfect-matching-skipped")
-            continue
-        case = {"kind": "blaze", "gen": kind, "im": im.astype(int).tolist(), "eids": _labels(rng, n), "qids": _labels(rng, n)}
-        _run_blaze_case(c, case)
-        if i in (0, 3):
-            c.sample({"kind": "blaze", "gen": kind, "n": n, "im_rows": ["".join("1" if v else "." for v in r) for r in im], "eids": case["eids"][:6]})
-
-    # ---- 3. thorough: random sample of n=5 (2^25 matrices, not exhaustive)
-    if c.tier == "thorough":
-        for i in range(20000):
-            if c.out_of_time():
-                break
-            im = rng.random((5, 5)) < rng.uniform(0.15, 0.7)
-            if graph.has_perfect_matching(im):
-                _run_blaze_case(c, {"kind": "blaze", "gen": "n5", "im": im.astype(int).tolist(), "eids": _labels(rng, 5), "qids": _labels(rng, 5)})
-
     # ---- 4. Sequential models
     n_seq = c.scale(60, 1500)
     for i in range(n_seq):
@@ -526,3 +514,29 @@ def shard(c):
             c.inconc(f"model:harness:{type(exc).__name__}")
         if i == 0:
             c.sample(case)
+
+    # ---- 2. random larger matrices
+    n_rand = c.scale(400, 6000)
+    kinds = ["planted", "planted", "planted", "dense", "sparse", "triangular", "cycle", "chain"]
+    for i in range(n_rand):
+        if c.out_of_time():
+            break
+        kind = kinds[i % len(kinds)]
+        n = int(rng.integers(5, c.scale(16, 31)))
+        im = _random_matrix(rng, n, kind)
+        if not graph.has_perfect_matching(im):
+            c.note("generator:no-perfect-matching-skipped")
+            continue
+        case = {"kind": "blaze", "gen": kind, "im": im.astype(int).tolist(), "eids": _labels(rng, n), "qids": _labels(rng, n)}
+        _run_blaze_case(c, case)
+        if i in (0, 3):
+            c.sample({"kind": "blaze", "gen": kind, "n": n, "im_rows": ["".join("1" if v else "." for v in r) for r in im], "eids": case["eids"][:6]})
+
+    # ---- 3. thorough: random sample of n=5 (2^25 matrices, not exhaustive)
+    if c.tier == "thorough":
+        for i in range(20000):
+            if c.out_of_time():
+                break
+            im = rng.random((5, 5)) < rng.uniform(0.15, 0.7)
+            if graph.has_perfect_matching(im):
+                _run_blaze_case(c, {"kind": "blaze", "gen": "n5", "im": im.astype(int).tolist(), "eids": _labels(rng, 5), "qids": _labels(rng, 5)})
